@@ -1389,6 +1389,14 @@ func runScenario(id string, sc *Scenario) obsT {
 	return o
 }
 
+// repoDir: the tree the harness was built against (./check passes VERIF_REPO on; default /repo).
+func repoDir() string {
+	if d := os.Getenv("VERIF_REPO"); d != "" {
+		return d
+	}
+	return "/repo"
+}
+
 func main() {
 	a := hx.ParseArgs()
 	// the application prints its banner (and the stdout trace exporter its spans) to os.Stdout:
@@ -1422,6 +1430,11 @@ func main() {
 	switch a.Cmd {
 	case "gen":
 		st = hx.NewStats()
+		// the control-flow skeletons of the entry points, regenerated from the source under check
+		for _, l := range skeletonLines(repoDir()) {
+			fmt.Fprintln(w, l)
+			st.Count("skeletons")
+		}
 		for i, sc := range fixedScenarios() {
 			jobs = append(jobs, &job{id: fmt.Sprintf("c09-fix-%d", i), sc: sc})
 		}
@@ -1430,9 +1443,23 @@ func main() {
 			jobs = append(jobs, &job{id: fmt.Sprintf("c09-%d-%d", a.Seed, i), sc: genScenario(rnd, a.Tier)})
 		}
 	case "replay":
+		skelDone := false
 		for _, line := range hx.StdinLines() {
-			var k struct{ Sc *Scenario }
+			var k struct {
+				Sc   *Scenario
+				Skel string
+			}
 			id, err := hx.CaseFromComment(line, &k)
+			if err == nil && k.Skel != "" {
+				// a skeleton line: extract again from the current source (all of them, once)
+				if !skelDone {
+					for _, l := range skeletonLines(repoDir()) {
+						fmt.Fprintln(w, l)
+					}
+					skelDone = true
+				}
+				continue
+			}
 			if err != nil || k.Sc == nil {
 				fmt.Fprintf(w, "# cannot replay %q: %v\n", id, err)
 				continue
